@@ -43,7 +43,7 @@ Theorem C01_solve_pins (net : netlist K) sched T :
   solve net sched = Ok T ->
   NoDup (l_pins T) /\
   forall p, In p (l_pins T) <->
-            In p (allpins (map lst_of_comp (comps net))) /\ partner (conns net) p = None.
+            In p (allpins (comps net)) /\ partner (conns net) p = None.
 Proof. exact (solve_pins K net sched T). Qed.
 
 End C01.
